@@ -36,7 +36,7 @@ static void run_smoke(RunCtx& ctx)
             ev(2, i);
         }));
     }
-    sim_quiesce(5000000);
+    sim_quiesce(2000000);
     pika::wait();
     for (int i = 0; i < n; i++) VH_CHECK(done[i] == 1, "S00.once", "task %d ran %d times", i, done[i]);
     pk::stop();
